@@ -66,6 +66,14 @@ def gen_history(rng, T, n):
     return hist
 
 
+def wire_jobs(rng, thorough):
+    """end to end: the same reads / writes on a real subunit object on a real connection (reader + sender threads under the deterministic
+    scheduler), the device reporting values in between; the trace is replayed on the L3 model (harness/wire.py)"""
+    from .. import gen
+    T = core.tables()
+    return [(gen.subunit_wire(rng, T, writes=False), rng.randrange(10 ** 9), 0) for _ in range(20000 if thorough else 400)]
+
+
 def run(ctx: core.Ctx):
     ctx.lean_stage()
     T = core.tables()
@@ -167,11 +175,16 @@ def run(ctx: core.Ctx):
         ctx.correspondence_broken("L3 subunit model vs real subunit objects (message handling / attribute reads)", disagreements[0])
     ctx.assumptions += ["subunits are driven through a stub connection exposing register/unregister_message_callback, put, get, num_commands_sent",
                         "values with exotic numeric syntax are not generated in the binding stream (see C04/C10)"]
+    from .. import b2check
+    b2check.run_b2(ctx, wire_jobs, ["C03w"], label="end-to-end reads on a real connection", accept=False)
     return ctx.finish()
 
 
 def replay(ctx, path):
     rp = json.load(open(path))["replay"]
+    if rp.get("path") == "b2":
+        from .. import b2check
+        return b2check.replay_b2(rp, ["C03w"])
     T = core.tables()
     S = L3Session()
     for c in T["classes"]:
